@@ -100,6 +100,14 @@ CLAIMED = {
          TB + "Partial: the whole-scenario ledger and 'remains usable' are decided on the enumerated scenarios (model-checked against the implementation), the theorems cover the constructors and accept. "
          "getaddrinfo/getnameinfo failures are exercised by C12's check. TLS set-up failures: C18.",
          "Coq proof (constructor/accept ledger for all fault overlays) + exhaustive single-fault enumeration with model correspondence and descriptor ledger"),
+ "C15": ("proof", "Theorems for every size, errno and script continuation: unlimited_send_on_dead_peer_throws / try_send_on_dead_peer_throws (one poll, one send, then std::system_error - no blocking, no retry), "
+         "receive_on_reset_throws, receive_after_close_throws_closed, delivered_is_what_recv_returned, failing_send_leaves_a_prefix, every_send_uses_nosignal, data_before_disconnect (POLLIN wins over POLLHUP/POLLERR). "
+         "Correspondence + monitor: bidirectional transfers on basic / buffered / accepted / asynchronous TCP sockets in every timeout mode against a scripted TCP endpoint whose peer closes, half-closes or resets at "
+         "a random byte offset of either direction (inside a Send, with unread data, reset keeping or discarding unread data, getpeername failing with ENOTCONN after a reset); the virtual kernel raises SIGPIPE "
+         "for an EPIPE send without MSG_NOSIGNAL; monitored on the implementation: no signal/crash/hang, operations on the dead connection throw, disconnect handler exactly once, no future left pending, "
+         "delivered bytes = prefix of the peer's stream (complete for an orderly close).", "5 C15",
+         TB + "Partial: the scripted endpoint's post-mortem answers follow Linux TCP (assumed); limited-timeout Send on a dead peer is covered by the correspondence and C07's theorems, not by a dedicated theorem; TLS variants belong to C18.",
+         "Coq proof (dead-peer scripts, all sizes/errnos) + correspondence against a scripted TCP endpoint with peer close/half-close/reset at every offset"),
 }
 
 checks = []
